@@ -21,6 +21,7 @@ def handle (j : Json) : Json :=
   | "truthy" => truthyOp j
   | "callconv" => callConvOp j
   | "callarity" => callArityOp j
+  | "callvariadic" => callVariadicOp j
   | "splitpath" => splitPathOp j
   | "render" => renderOp j
   | "tokenize" => tokenizeOp j
